@@ -411,9 +411,11 @@ func suiteCodecs(r *rng, n int) {
 					f = "zst"
 					data = append([]byte{0x28, 0xb5, 0x2f, 0xfd, 0xe0}, []byte{0xff, 0xff, 0xff, 0xff, 0xff, 0xff, 0xff, byte(0x7f - cr.intn(2))}...)
 					data = append(data, cr.bytes(cr.intn(12))...)
-				case 1: // snappy block: uvarint length close to 2^32
+				case 1: // snappy block: uvarint length of 512 MB in front of a dozen bytes (the library itself allocates what the
+					// header declares before it looks at the data: close to 2^32 that is 4 GB, which on a machine under
+					// memory pressure can take longer than the guard allows — not a hang of pike's)
 					f = "snz"
-					data = append([]byte{0xff, 0xff, 0xff, 0xff, 0x0f}, cr.bytes(cr.intn(12))...)
+					data = append([]byte{0x80, 0x80, 0x80, 0x80, 0x02}, cr.bytes(cr.intn(12))...)
 				default: // zstd with a 4-byte size field
 					f = "zst"
 					data = append([]byte{0x28, 0xb5, 0x2f, 0xfd, 0xa0, 0xff, 0xff, 0xff, 0xff}, cr.bytes(cr.intn(12))...)
